@@ -15,6 +15,8 @@
 #include <photospline/cinter/splinetable.h>
 #include <sys/resource.h>
 #include <sys/stat.h>
+#include <sys/wait.h>
+#include "common/spec.hpp"
 #include <fcntl.h>
 
 using namespace vf;
@@ -57,16 +59,21 @@ CaseResult body(Chooser& ch, Stats* st) {
   // ---- table: 1..5 dims, from one FITS block to a few hundred
   SpecOpts so; so.max_ndim = 5; so.max_terms = 1500;
   int size_class = (int)ch.draw(0, 9);
+  // (generator version 2: more tables beyond cfitsio's 40-block buffer pool, where rewriting an early block forces
+  //  dirty buffers out - the situation in which write errors have been swallowed)
+  if (gen_version() >= 2 && size_class >= 7) size_class = 9;
   so.max_coeffs = size_class < 6 ? 600 : (size_class < 9 ? 20000 : 220000);
   if (size_class >= 6) so.ko.extra_max = size_class == 9 ? 40 : 12;
   TableSpec s = gen_spec(ch, so);
   if (size_class == 9) {  // several hundred blocks: grow the axes until the coefficient image alone spans > 70 blocks
-    uint64_t want = 50000 + ch.draw(0, 150000);
+    uint64_t want = gen_version() >= 2 ? 30000 + ch.draw(0, 90000) : 50000 + ch.draw(0, 150000);
     for (size_t d = 0; s.ncoeff() < want; d = (d + 1) % s.ndim()) { auto& k = s.dims[d].knots; double step = k.back() - k[k.size() - 2]; k.push_back(k.back() + (step > 0 ? step : 1.0)); }
     for (auto& d : s.dims) { d.ext_lo = d.knots[d.order]; d.ext_hi = d.knots[d.knots.size() - d.order - 1]; }
     gen_coeffs(ch, s);
   }
   int naux = (int)ch.draw(0, 20);
+  // enough keys that the header outgrows its block(s): cfitsio then has to make room by moving what follows
+  if (gen_version() >= 2 && ch.coin(1, 3)) naux = 14 + (int)ch.draw(0, 50);
   for (int i = 0; i < naux; i++) s.aux.push_back({"AUX" + std::to_string(i), "value number " + std::to_string(i)});
   Table T;
   try { build_p1(T, s); } catch (std::exception& e) { r.fail = std::string("harness: cannot build table: ") + e.what(); return r; }
@@ -93,7 +100,7 @@ CaseResult body(Chooser& ch, Stats* st) {
   long long fsize = sb.st_size;
   js << ",\"file_bytes\":" << fsize;
   uint64_t th = s.hash();
-  if (st) { st->label("tables"); st->label("ndim:" + std::to_string(s.ndim())); st->label(fsize <= 6 * 2880 ? "size:small" : fsize <= 60 * 2880 ? "size:medium" : "size:large(>60 blocks)"); st->label(use_c ? "via:C" : "via:C++"); }
+  if (st) { st->label("tables"); st->label("ndim:" + std::to_string(s.ndim())); st->label(fsize <= 6 * 2880 ? "size:small" : fsize <= 60 * 2880 ? "size:medium" : "size:large(>60 blocks)"); st->label(use_c ? "via:C" : "via:C++"); if (naux >= 17) st->label("aux>=17(header_overflows_a_block)"); }
   // ---- 2. crash points
   {
     std::vector<Cut> cuts;
@@ -164,8 +171,12 @@ CaseResult body(Chooser& ch, Stats* st) {
     if (nops <= 300) for (long k = 1; k <= nops; k++) ks.push_back(k);
     else { for (long k = 1; k <= 40; k++) ks.push_back(k); for (long k = nops - 40; k <= nops; k++) ks.push_back(k); for (int i = 0; i < 220; i++) ks.push_back(41 + (long)ch.draw(0, nops - 82)); std::sort(ks.begin(), ks.end()); ks.erase(std::unique(ks.begin(), ks.end()), ks.end()); }
     long reported_ok = 0, reported_fail = 0;
-    for (long k : ks) {
-      int variant = (int)ch.draw(0, 3);  // 0 single/zero, 1 single/partial, 2 sticky/zero, 3 sticky/partial
+    // every position is tried with a transient and with a persistent failure when the trace is short enough
+    std::vector<std::pair<long, int>> plan;  // (position, 0 any variant | 1 transient | 2 persistent)
+    for (long k : ks) { if (gen_version() >= 2 && nops <= 200) { plan.push_back({k, 1}); plan.push_back({k, 2}); } else plan.push_back({k, 0}); }
+    for (auto& pk : plan) {
+      long k = pk.first;
+      int variant = pk.second == 0 ? (int)ch.draw(0, 3) : (pk.second == 1 ? (int)ch.draw(0, 1) : 2 + (int)ch.draw(0, 1));  // 0 single/zero, 1 single/partial, 2 sticky/zero, 3 sticky/partial
       unlink(target.c_str());
       g.reset(target); g.active = true; g.fail_at = k; g.sticky = variant >= 2; g.partial_bytes = (variant & 1) ? 1 + ch.draw(0, 2000) : 0; g.err = errs[ch.draw(0, 3)];
       bool okk = do_write(target);
@@ -188,7 +199,7 @@ CaseResult body(Chooser& ch, Stats* st) {
       if (okk && cls != 1) { r.fail = ctx + ": writer reported success but the file " + (exists ? (cls == 0 ? "is rejected by the reader" : "loads as a different table") : "does not exist"); break; }
       if (!okk && cls == 2) { r.fail = ctx + ": the file left behind loads as a table that differs from the one being written"; break; }
     }
-    js << ",\"fault_positions\":" << ks.size() << ",\"faults_reported_ok\":" << reported_ok << ",\"faults_reported_fail\":" << reported_fail;
+    js << ",\"fault_positions\":" << ks.size() << ",\"fault_runs\":" << plan.size() << ",\"faults_reported_ok\":" << reported_ok << ",\"faults_reported_fail\":" << reported_fail;
   }
   // ---- 4. kernel-side size limit (failure surfaces at flush/close time)
   if (r.fail.empty()) {
@@ -219,12 +230,107 @@ CaseResult body(Chooser& ch, Stats* st) {
   return r;
 }
 
+// ---- kernel-level faults --------------------------------------------------------------------
+// The stdio interposer above fails library calls (fwrite, fflush, fclose).  A no-space error can also surface in a
+// write(2) that stdio issues on its own - when fseek or fclose drains the buffer - and is then reported through a
+// different return value.  Here the write is done by a helper process (this executable, --helper) under strace's
+// syscall fault injection: the N-th write(2) fails with ENOSPC / EIO / EDQUOT, once or from then on, for every N.
+std::string self_exe() { char b[4096]; ssize_t n = readlink("/proc/self/exe", b, sizeof b - 1); if (n <= 0) return ""; b[n] = 0; return b; }
+
+int run_cmd(const std::vector<std::string>& argv, unsigned timeout_s = 120) {
+  fflush(stdout); fflush(stderr);
+  pid_t pid = fork();
+  if (pid < 0) return -1;
+  if (pid == 0) {
+    std::vector<char*> a; for (auto& x : argv) a.push_back(const_cast<char*>(x.c_str())); a.push_back(nullptr);
+    int dn = open("/dev/null", O_WRONLY); if (dn >= 0) { dup2(dn, 1); dup2(dn, 2); }
+    alarm(timeout_s);
+    execvp(a[0], a.data());
+    _exit(127);
+  }
+  int stt = 0; if (waitpid(pid, &stt, 0) < 0) return -1;
+  return WIFEXITED(stt) ? WEXITSTATUS(stt) : 128 + WTERMSIG(stt);
+}
+
+int helper_main(const char* src, const char* dst, bool use_c) {  // exit 0: writer reported success, 3: failure
+  Table T;
+  { QuietStderr q; try { T.read_fits(src); } catch (std::exception&) { return 4; } }
+  QuietStderr q;
+  if (use_c) { struct splinetable ct; ct.data = &T; return writesplinefitstable(dst, &ct) == 0 ? 0 : 3; }
+  try { T.write_fits(dst); return 0; } catch (std::exception&) { return 3; }
+}
+
+bool strace_usable() {
+  static int cached = -1;
+  if (cached < 0) cached = run_cmd({"strace", "-o", "/dev/null", "-e", "trace=write", "-e", "inject=write:error=ENOSPC:when=65535", "true"}) == 0 ? 1 : 0;
+  return cached == 1;
+}
+
+CaseResult body_kernel(Chooser& ch, Stats* st) {
+  CaseResult r;
+  QuietStderr q;
+  if (!strace_usable()) { if (st) { st->label("strace_unusable(skipped)"); st->notes["kernel_faults"] = "strace fault injection is not usable in this environment; sub-property skipped"; } r.json = "{\"skipped\":\"strace unusable\"}"; return r; }
+  SpecOpts so; so.max_ndim = 5; so.max_terms = 1500;
+  int size_class = (int)ch.draw(0, 5);
+  so.max_coeffs = size_class < 3 ? 600 : (size_class < 5 ? 8000 : 40000);
+  if (size_class >= 3) so.ko.extra_max = 12;
+  TableSpec s = gen_spec(ch, so);
+  int naux = (int)ch.draw(0, 20);
+  if (ch.coin(1, 3)) naux = 14 + (int)ch.draw(0, 50);
+  for (int i = 0; i < naux; i++) s.aux.push_back({"AUX" + std::to_string(i), "value number " + std::to_string(i)});
+  Table T;
+  try { build_p1(T, s); } catch (std::exception& e) { r.fail = std::string("harness: cannot build table: ") + e.what(); return r; }
+  bool use_c = ch.coin(1, 5);
+  std::string src = workdir() + "/ksrc.fits", dst = workdir() + "/kdst.fits", tr = workdir() + "/ktrace.txt", exe = self_exe();
+  { std::vector<unsigned char> bytes = spec_to_fits(s); FILE* f = fopen(src.c_str(), "wb"); if (!f) { r.fail = "harness: cannot write the source file"; return r; } fwrite(bytes.data(), 1, bytes.size(), f); fclose(f); }
+  std::ostringstream js;
+  js << "{\"spec\":" << s.json(4) << ",\"naux\":" << naux << ",\"via\":" << jstr(use_c ? "C" : "C++");
+  std::vector<std::string> helper = {exe, "--helper", src, dst, use_c ? "c" : "cpp"};
+  // undisturbed run under strace: how many write(2) calls?
+  unlink(dst.c_str());
+  { std::vector<std::string> a = {"strace", "-o", tr, "-e", "trace=write"}; a.insert(a.end(), helper.begin(), helper.end());
+    int rc = run_cmd(a);
+    if (rc != 0) { r.fail = "writer failed on a valid table without any injected fault (helper exit " + std::to_string(rc) + ")"; r.json = js.str() + "}"; unlink(src.c_str()); return r; } }
+  long nwrites = 0; { FILE* f = fopen(tr.c_str(), "r"); char line[512]; if (f) { while (fgets(line, sizeof line, f)) if (!strncmp(line, "write(", 6)) nwrites++; fclose(f); } unlink(tr.c_str()); }
+  if (classify(dst, T) != 1) { r.fail = "writer reported success but the file does not read back equal"; r.json = js.str() + "}"; unlink(src.c_str()); return r; }
+  js << ",\"write_syscalls\":" << nwrites;
+  uint64_t th = s.hash();
+  if (st) { st->label("tables"); st->label("ndim:" + std::to_string(s.ndim())); st->label(use_c ? "via:C" : "via:C++"); if (naux >= 17) st->label("aux>=17(header_overflows_a_block)"); st->maxi("max_write_syscalls", (double)nwrites); }
+  static const char* errs[] = {"ENOSPC", "EIO", "EDQUOT", "EFBIG"};
+  std::vector<long> ks;
+  if (nwrites <= 60) for (long k = 1; k <= nwrites; k++) ks.push_back(k);
+  else { for (long k = 1; k <= 20; k++) ks.push_back(k); for (long k = nwrites - 20; k <= nwrites; k++) ks.push_back(k); for (int i = 0; i < 20; i++) ks.push_back(21 + (long)ch.draw(0, nwrites - 42)); std::sort(ks.begin(), ks.end()); ks.erase(std::unique(ks.begin(), ks.end()), ks.end()); }
+  long runs = 0, ok_reports = 0;
+  for (long k : ks) for (int persistent = 0; persistent < 2 && r.fail.empty(); persistent++) {
+    const char* en = errs[ch.draw(0, 3)];
+    unlink(dst.c_str());
+    std::vector<std::string> a = {"strace", "-o", "/dev/null", "-e", "trace=write", "-e", std::string("inject=write:error=") + en + ":when=" + std::to_string(k) + (persistent ? "+" : "")};
+    a.insert(a.end(), helper.begin(), helper.end());
+    int rc = run_cmd(a);
+    runs++;
+    std::string ctx = std::string("write(2) #") + std::to_string(k) + " of " + std::to_string(nwrites) + " failing with " + en + (persistent ? " from then on" : " once");
+    if (rc != 0 && rc != 3) { r.fail = ctx + ": the writing process died or hung (exit status " + std::to_string(rc) + ")"; break; }
+    bool okk = rc == 0; if (okk) ok_reports++;
+    bool exists = access(dst.c_str(), F_OK) == 0;
+    int cls = exists ? classify(dst, T) : 0;
+    if (st) { st->label(okk ? "kfault:writer_reported_success" : "kfault:writer_reported_failure"); st->label(persistent ? "kfault:persistent" : "kfault:once"); Hasher h; h.add(th); h.add(k); h.add(persistent); h.add(7); st->nontriv(h.h); }
+    if (okk && cls != 1) { r.fail = ctx + ": writer reported success but the file " + (exists ? (cls == 0 ? "is rejected by the reader" : "loads as a different table") : "does not exist"); break; }
+    if (!okk && cls == 2) { r.fail = ctx + ": the file left behind loads as a table that differs from the one being written"; break; }
+  }
+  unlink(dst.c_str()); unlink(src.c_str());
+  js << ",\"fault_runs\":" << runs << ",\"reported_success\":" << ok_reports << "}";
+  r.json = js.str();
+  if (st) st->sample(r.json);
+  return r;
+}
+
 }  // namespace
 
 int main(int argc, char** argv) {
+  if (argc >= 5 && !strcmp(argv[1], "--helper")) return helper_main(argv[2], argv[3], argc >= 6 && !strcmp(argv[5], "c"));
   Options o = parse_options(argc, argv);
-  Prop a{"write_faults", body, 1.0};
-  int rc = run_main(o, "C08", {a});
+  Prop a{"write_faults", body, 1.0}, b{"kernel_write_faults", body_kernel, 0.4};
+  int rc = run_main(o, "C08", {a, b});
   rmdir(workdir().c_str());
   return rc;
 }
